@@ -44,11 +44,13 @@ Section Decoder.
   Lemma take_in_chunk_no_print ch : forall m t, take_in_chunk ch <> Some (Print m, t).
   Proof.
     induction ch as [|x ch IH]; intros m t; cbn [take_in_chunk]; [discriminate|].
-    destruct x; try discriminate. apply IH.
+    destruct x; try discriminate.
+    destruct (take_in_chunk ch) as [[c t']|] eqn:E; [|discriminate].
+    intros H. inversion H; subst. exact (IH m t' eq_refl).
   Qed.
-  Lemma take_first_no_print rest : forall m i, take_first rest <> Some (Print m, i).
+  Lemma take_first_no_print rest : forall pending m i, take_first pending rest <> Some (Print m, i).
   Proof.
-    induction rest as [|ch rest IH]; intros m i; cbn [take_first]; [discriminate|].
+    induction rest as [|ch rest IH]; intros pending m i; cbn [take_first]; [discriminate|].
     destruct (take_in_chunk ch) as [[c t]|] eqn:E; [|apply IH].
     intros H. inversion H; subst. exact (take_in_chunk_no_print ch m t E).
   Qed.
